@@ -62,6 +62,41 @@ def rw2(F, R):
     somes = [(s, e, f) for s, e, f in defs if e[0] == "agg" and e[2] == "Some"]
     nones = [(s, e, f) for s, e, f in defs if e[0] == "agg" and e[2] == "None"]
     other = [(s, e, f) for s, e, f in defs if not (e[0] == "agg" and e[2] in ("Some", "None"))]
+    # accepted alternative: edges(v).iter().find(|e| *e.0 == a).map(|e| *e.1)
+    rest = []
+    for s0, e0, f0 in other:
+        c0 = strip_load(e0)
+        okalt = False
+        if c0[0] == "optmap" and strip_load(c0[2])[0] == "find":
+            fnd = strip_load(c0[2])
+            proj = strip_load(c0[1])
+            src = iter_source(fnd[1])
+            cl = strip_load(fnd[2])
+            cb = F.bodies.get(cl[1]) if cl[0] == "closure" else None
+            src_ok = src is not None and strip_load(src)[0] == "field" and strip_load(src)[2] == "Vertex::edges" and \
+                is_param_vertex(strip_load(src)[1], 2) and not iter_adaptors(fnd[1])
+            proj_ok = proj[0] == "field" and proj[2] == "(tuple)::1" and strip_load(proj[1])[0] == "item"
+            eq_ok = False
+            if cb is not None:
+                env = {("upvar", i): (b.expr_local(u[1], u[2]) if u[0] == "addr" else u) for i, u in enumerate(cl[2])}
+                summ = pred_summary(cb)
+                if len(summ) == 1:
+                    for f in summ[0]:
+                        if f[0] == "cmp" and f[1] == "==":
+                            l, r = unload(subst(f[2], env)), unload(subst(f[3], env))
+                            for x, y in ((l, r), (r, l)):
+                                if x == ("param", 3) and y[0] == "field" and y[2] == "(tuple)::0" and mentions(y, lambda z: z == ("param", 2)):
+                                    eq_ok = True
+            if src_ok and proj_ok and eq_ok:
+                okalt = True
+                R.ok("RW2", b.where(s0), "kid(v, a) = target of the first edge of v whose label == a (find + map)")
+            elif src_ok and proj_ok:
+                okalt = True
+                R.bad("RW2", "RW2/Sodg::kid/not-guarded-by-label-equality", b.where(s0),
+                      "kid(v, a) returns an edge's target without the edge's label being equal to `a`", {"value": show(e0, b)})
+        if not okalt:
+            rest.append((s0, e0, f0))
+    other = rest
     if other:
         # accepted alternative: a lookup of the label in the vertex's own edge map
         for s, e, f in other:
@@ -71,6 +106,8 @@ def rw2(F, R):
                 R.ok("RW2", b.where(s), "kid(): lookup of the label in the vertex's edge map")
             else:
                 R.bad("RW2", "RW2/Sodg::kid/result-shape", b.where(s), "cannot establish RW2: unrecognised result of kid()", {"value": show(e, b)})
+        return
+    if not somes and not nones:
         return
     R.floor("RW2", "Some(..) results of kid()", len(somes), 1, b.where())
     for s, e, facts in somes:
@@ -200,8 +237,7 @@ def rw6(F, R):
             fk = e.fn_key()
             if fk in allow[e.kind]:
                 continue
-            b = owner_body(e.root_body())
-            if G.merge_nontree_exempt(c, b) is True:
+            if G.nontree_exempt_event(c, e):
                 continue
             R.bad("RW6", "RW6/%s/%s" % (fk, e.kind), e.where(),
                   "%s changes a vertex's %s: only bind (edges) and put/data (datum, read status) and add (blank) may, so calls on "
